@@ -85,6 +85,12 @@ class Placement:
     def name_id(self, b, k):
         return "'[%s]'!%s" % (self.file(b), self.d['names'][k].upper())
 
+    def vname(self, k):
+        return 'VOL_%s' % chr(65 + k)
+
+    def vname_id(self, b, k):
+        return "'[%s]'!%s" % (self.file(b), self.vname(k))
+
 
 def walk(e):
     """Yield every sub-expression (pre-order)."""
@@ -173,6 +179,10 @@ class Renderer:
             return self.ref(e, host)
         if k == 'nm':
             return self.name(e, host)
+        if k == 'vn':    # defined name holding a formula (volatile names)
+            if self.mode == 'dict':
+                return self.p.vname_id(self.w['vnames'][e[1]]['b'], e[1])
+            return self.p.vname(e[1])
         if k == 'op':
             sp = ' ' if self.style and self.style.random() < .2 else ''
             return '(%s%s%s%s%s)' % (
